@@ -555,7 +555,21 @@ def _jacobian_rows(prog, rep):
                 return any(isinstance(c, ast.Call) and dotted(c.func) == "isinstance" and len(c.args) == 2 and src(c.args[0]) in names and any(k in src(c.args[1]) for k in ("VectorVariable", "MatrixVariable")) for c in ast.walk(m.node))
 
             unguarded = [sl for sl in open_slots if not guarded_slot(sl)]
-            rep.ob("R03.4", f"{cname}.jacobian_row", not unguarded, robust=False, msg=
+
+            def tested_somehow(sl):
+                """any test / predicate call / helper that is handed the operand: the kind may be checked in a way this rule does not read"""
+                names = {f"self.{sl}"} | {nm for nm, vals in la.items() if any(isinstance(v, ast.AST) and src(v) == f"self.{sl}" for v in vals)}
+                for c in ast.walk(m.node):
+                    if isinstance(c, ast.Call) and any(src(a_) in names for a_ in c.args) and (dotted(c.func) or "") not in ("len", "set", "list", "enumerate", "zip", "iter"):
+                        return True
+                    if isinstance(c, ast.Call) and isinstance(c.func, ast.Attribute) and src(c.func.value) in names and c.func.attr not in ("get_variables",) and not c.func.attr.startswith("_"):
+                        return True
+                return False
+
+            if unguarded and tested_somehow(unguarded[0]):
+                rep.undecided(f"{cname}.jacobian_row: .{unguarded[0]} is examined by a test / helper this rule does not read; whether expression operands are excluded is not decided")
+                continue
+            rep.ob("R03.4", f"{cname}.jacobian_row", not unguarded, robust=True, msg=
                    "answers from variable containers only (by constructor signature or an isinstance guard returning None otherwise)" if not unguarded else
                    f"answers a row from the variables of .{unguarded[0]} without looking at its element expressions, although .{unguarded[0]} may be a MatrixExpression/VectorExpression (e.g. (X*Y).sum()): every entry comes out as if the elements were plain variables",
                    loc=loc, detail="container-operand")
@@ -940,8 +954,22 @@ _PROGREF: dict = {}
 def _fast_paths(prog, rep):
     cj = prog.func("optyx.core.autodiff:compile_jacobian")
     s = src(cj.node)
-    ok = "all_constant = all((isinstance(jacobian_exprs[i][j], Constant) for i in range(m) for j in range(n)))" in s
-    rep.pin('compile_jacobian fast paths', "R03.5", "compile_jacobian", ok, "the pre-computed Jacobian is used only when every entry is a Constant node (never a Parameter or variable term)" if ok else "the constant fast path is not guarded by `all entries are Constant nodes`", loc=cj.loc, detail="all-constant-guard")
+    # the pre-computed (constant) Jacobian is taken only when EVERY entry is a Constant node: the kinds admitted by the
+    # all(isinstance(entry, K) ...) test are read off; anything besides Constant (a Parameter, say) is positively wrong
+    kinds_seen = []
+    for c_ in ast.walk(cj.node):
+        if isinstance(c_, ast.Call) and dotted(c_.func) == "all" and c_.args and isinstance(c_.args[0], (ast.GeneratorExp, ast.ListComp)):
+            e_ = c_.args[0].elt
+            if isinstance(e_, ast.Call) and dotted(e_.func) == "isinstance" and len(e_.args) == 2 and ("jacobian" in src(e_.args[0]) or "entry" in src(e_.args[0]) or "expr" in src(e_.args[0])):
+                ks_ = e_.args[1].elts if isinstance(e_.args[1], ast.Tuple) else [e_.args[1]]
+                kinds_seen.append(([src(k_) for k_ in ks_], c_))
+            if isinstance(e_, ast.Call) and dotted(e_.func) == "hasattr" and len(e_.args) == 2 and isinstance(e_.args[1], ast.Constant) and e_.args[1].value in ("value", "_value"):
+                kinds_seen.append((["Constant", "anything with a .value attribute (Parameter)"], c_))
+    if not kinds_seen:
+        rep.undecided("compile_jacobian: no `all(isinstance(<entry>, ...) for ...)` guard of the constant fast path found in a form this rule reads")
+    for ks_, c_ in kinds_seen:
+        extra_ = sorted(set(ks_) - {"Constant"})
+        rep.ob("R03.5", "compile_jacobian", not extra_, "the pre-computed Jacobian is used only when every entry is a Constant node (never a Parameter or variable term)" if not extra_ else f"the constant fast path also accepts {extra_} entries: their value at compile time is frozen into the pre-computed Jacobian (a Parameter can change afterwards)", loc=f"{cj.module.rel}:{c_.lineno}", detail="all-constant-guard", robust=True)
     guarded = any(isinstance(n, ast.If) and src(n.test) == "all_constant" and "constant_jacobian_fn" in src(n) for n in walk_local(cj.node))
     rep.pin('compile_jacobian fast paths', "R03.5", "compile_jacobian", guarded, "constant closure is returned under `if all_constant`" if guarded else "the constant closure is returned outside the `all_constant` guard", loc=cj.loc, detail="constant-closure-guarded")
     vals = Frag(s, "cast(Constant, jacobian_exprs[i][j]).value for j in range(n)", "for i in range(m)")
